@@ -135,19 +135,31 @@ def proof_step(pid, tier):
             res['problems'].append('coqc failed on Props/%s.v: %s' % (pid, r.stdout[-1500:]))
             return res
         out = r.stdout
-        closed = len(re.findall(r'Closed under the global context', out))
-        ax = re.findall(r'^Axioms:\n((?:.+\n?)*)', out, re.M)
-        allowed = re.compile(r'^\s*(PrimFloat\.|Uint63\.|PrimInt63\.|float\b|int\b|  |\s*:|$)')
-        for block in ax:
-            names = [l for l in block.split('\n') if l and not l.startswith(' ')]
-            for nme in names:
-                if allowed.match(nme) or nme.split(' ')[0] in ('float', 'int'):
-                    res['axioms'].append(nme.split(' ')[0])
-                    closed += 0
-                else:
-                    res['problems'].append('theorem depends on axiom: ' + nme)
-        # one result block per Print Assumptions command: closed ones + primitive-only ones
-        prim_blocks = sum(1 for block in ax if all((allowed.match(l) or l.split(' ')[0] in ('float', 'int')) for l in block.split('\n') if l and not l.startswith(' ')))
+        # one output block per Print Assumptions: either "Closed under the global context" or "Axioms:" + entries
+        closed = 0
+        prim_blocks = 0
+        cur = None
+        blocks = []
+        for l in out.split('\n'):
+            if l.startswith('Closed under the global context'):
+                closed += 1
+                cur = None
+            elif l.startswith('Axioms:'):
+                cur = []
+                blocks.append(cur)
+            elif cur is not None:
+                if l and not l[0].isspace():
+                    cur.append(l.split(' ')[0])
+        prim = re.compile(r'^(PrimFloat\.|Uint63\.|PrimInt63\.|FloatOps\.|float$|int$)')
+        for names in blocks:
+            bad_names = [n for n in names if not prim.match(n)]
+            for n in names:
+                if n not in res['axioms']:
+                    res['axioms'].append(n)
+            if bad_names:
+                res['problems'].append('theorem depends on axiom: ' + ', '.join(bad_names))
+            else:
+                prim_blocks += 1
         res['discharged'] = min(len(thms), closed + prim_blocks)
         if closed + prim_blocks < len(printed):
             res['problems'].append('only %d of %d Print Assumptions outputs are closed' % (closed + prim_blocks, len(printed)))
